@@ -140,14 +140,14 @@ def run(ctx):
     # targets chosen by execution coverage of the solver (rarely executed solver code: sign corrections at a time-reversed
     # measurement, multi-emitter disentangling, ...)
     pool = cz.trs_pool()
-    for g in pool[:14] if ctx.quick else pool:
+    for g in pool[:30] if ctx.quick else pool:
         rec, circuit = solve(g, "s", "stabilizer", setting=rng.choice([0, 1, 2]))
         tid += 1
         rec.update({"tid": tid, "events": [], "meta": {"n": g.number_of_nodes(), "edges": rec["target"]["edges"], "rep": "s",
                                                        "backend": "stabilizer", "err": rec["err"], "isolated": False,
                                                        "origin": "coverage-pool"}})
         recs.append(rec)
-    ctx.extra["coverage_pool_targets"] = len(pool[:14] if ctx.quick else pool)
+    ctx.extra["coverage_pool_targets"] = len(pool[:30] if ctx.quick else pool)
     ctx.extra["targets"] = len(recs)
     ctx.judge("Trace_CircuitAll", recs, label="M: solver circuits over all measurement outcomes", mode="forall")
     ctx.judge("Trace_CircuitRun", runs, label="J: solver circuits compiled by both backends")
